@@ -399,8 +399,8 @@ func (t *tOps) createFrom(src iterator.Iterator) (f *tFile, n int, err error) {
 }
 
 // Opens table. It returns a cache handle, which should
-// be released after use.
-func (t *tOps) open(f *tFile) (ch *cache.Handle, err error) {
+// be released after use, and the table reader it holds.
+func (t *tOps) open(f *tFile) (ch *cache.Handle, tr *table.Reader, err error) {
 	ch = t.fileCache.Get(0, uint64(f.fd.Num), func() (size int, value cache.Value) {
 		var r storage.Reader
 		r, err = t.s.stor.Open(f.fd)
@@ -422,50 +422,61 @@ func (t *tOps) open(f *tFile) (ch *cache.Handle, err error) {
 		return 1, tr
 
 	})
-	if ch == nil && err == nil {
-		err = ErrClosed
+	if ch == nil {
+		if err == nil {
+			err = ErrClosed
+		}
+		return nil, nil, err
 	}
-	return
+	// DB.Close closes the table cache forcibly, which takes the value away
+	// from handles that are still held: a read racing with Close may get a
+	// handle without its reader.
+	tr, ok := ch.Value().(*table.Reader)
+	if !ok {
+		ch.Release()
+		return nil, nil, ErrClosed
+	}
+	return ch, tr, nil
 }
 
 // Finds key/value pair whose key is greater than or equal to the
 // given key.
 func (t *tOps) find(f *tFile, key []byte, ro *opt.ReadOptions) (rkey, rvalue []byte, err error) {
-	ch, err := t.open(f)
+	ch, tr, err := t.open(f)
 	if err != nil {
 		return nil, nil, err
 	}
 	defer ch.Release()
-	return ch.Value().(*table.Reader).Find(key, true, ro)
+	return tr.Find(key, true, ro)
 }
 
 // Finds key that is greater than or equal to the given key.
 func (t *tOps) findKey(f *tFile, key []byte, ro *opt.ReadOptions) (rkey []byte, err error) {
-	ch, err := t.open(f)
+	ch, tr, err := t.open(f)
 	if err != nil {
 		return nil, err
 	}
 	defer ch.Release()
-	return ch.Value().(*table.Reader).FindKey(key, true, ro)
+	return tr.FindKey(key, true, ro)
 }
 
 // Returns approximate offset of the given key.
 func (t *tOps) offsetOf(f *tFile, key []byte) (offset int64, err error) {
-	ch, err := t.open(f)
+	ch, tr, err := t.open(f)
 	if err != nil {
 		return
 	}
 	defer ch.Release()
-	return ch.Value().(*table.Reader).OffsetOf(key)
+	return tr.OffsetOf(key)
 }
 
 // Creates an iterator from the given table.
 func (t *tOps) newIterator(f *tFile, slice *util.Range, ro *opt.ReadOptions) iterator.Iterator {
-	ch, err := t.open(f)
+	ch, tr, err := t.open(f)
 	if err != nil {
 		return iterator.NewEmptyIterator(err)
 	}
-	iter := ch.Value().(*table.Reader).NewIterator(slice, ro)
+	iter := tr.NewIterator(slice, ro)
 	iter.SetReleaser(ch)
 	return iter
 }
